@@ -2,7 +2,7 @@ CONSTANTS
   Rules <- RulesQuick
   ReqsR <- ReqsRQuick
   MaxRules = 2
-  Defects = {}
+  Defects = {"LastIndexedWins"}
 SPECIFICATION Spec
-INVARIANTS FirstWins NoneOnlyIfNone EarlierDoNotHold KvIsFirstIndexed HandlerIsMatchRoute
+INVARIANTS KvIsFirstIndexed
 CHECK_DEADLOCK FALSE
